@@ -67,7 +67,7 @@ type G struct {
 	noEmpty                                                           int
 	CyclesAvoided                                                     int
 	recs                                                              []*m.Func
-	Shadows, EarlyReturns, Breaks, blockID                            int
+	Shadows, EarlyReturns, Breaks, blockID, TermChains                int
 	retType                                                           *m.Type // return type of the function being generated, nil at top level
 	RangeKinds                                                        map[string]int
 }
@@ -1001,28 +1001,48 @@ func (g *G) forgetAll() {
 func (g *G) If(depth int) m.Stmt {
 	s := &m.If{}
 	n := 1 + g.intn("nbranches", 3)
+	fallsThrough := false
+	exit := func() []m.Stmt {
+		if g.inLoop > 0 && g.chance("break", 1, 3) {
+			g.Breaks++
+			return []m.Stmt{&m.Break{}}
+		}
+		if g.Cfg.EarlyExit && g.retType != nil && g.chance("earlyreturn", 1, 2) {
+			g.EarlyReturns++
+			if g.retType.K == m.None {
+				return []m.Stmt{&m.Return{}}
+			}
+			return []m.Stmt{&m.Return{Val: g.Conv(g.retType, 1)}}
+		}
+		return nil
+	}
 	for i := 0; i < n; i++ {
 		s.Conds = append(s.Conds, g.Natural(m.TBool, g.Cfg.ExprDepth))
 		g.forgetAll()
 		body := g.BlockTail(depth-1, "if", func() []m.Stmt {
-			if g.inLoop > 0 && g.chance("break", 1, 3) {
-				g.Breaks++
-				return []m.Stmt{&m.Break{}}
+			t := exit()
+			if t == nil {
+				fallsThrough = true
 			}
-			if g.Cfg.EarlyExit && g.retType != nil && g.chance("earlyreturn", 1, 2) {
-				g.EarlyReturns++
-				if g.retType.K == m.None {
-					return []m.Stmt{&m.Return{}}
-				}
-				return []m.Stmt{&m.Return{Val: g.Conv(g.retType, 1)}}
-			}
-			return nil
+			return t
 		})
 		s.Blocks = append(s.Blocks, body)
 	}
 	if g.chance("else", 1, 2) {
 		g.forgetAll()
-		s.Else = g.Block(depth-1, "else")
+		if fallsThrough {
+			// the else branch may leave too, as long as some branch falls through: the statement
+			// as a whole does not always terminate, what follows it stays reachable
+			s.Else = g.BlockTail(depth-1, "else", func() []m.Stmt {
+				t := exit()
+				if t != nil {
+					g.TermChains++
+				}
+				return t
+			})
+		} else {
+			s.Else = g.Block(depth-1, "else")
+		}
 	}
 	g.forgetAll()
 	return s
@@ -1197,6 +1217,17 @@ func (g *G) Func(depth int) *m.Func {
 	f.Body = g.BlockTail(depth, "fn", func() []m.Stmt {
 		if f.Ret.K == m.None {
 			return nil
+		}
+		if g.chance("returnchain", 1, 4) {
+			// the function ends in an if / else if / else chain every branch of which returns
+			g.TermChains++
+			chain := &m.If{}
+			for i, n := 0, 1+g.intn("chainbranches", 3); i < n; i++ {
+				chain.Conds = append(chain.Conds, g.Natural(m.TBool, 1))
+				chain.Blocks = append(chain.Blocks, []m.Stmt{Print(m.StrLit("branch " + strconv.Itoa(i))), &m.Return{Val: g.Conv(f.Ret, 1)}})
+			}
+			chain.Else = []m.Stmt{&m.Return{Val: g.Conv(f.Ret, 1)}}
+			return []m.Stmt{chain}
 		}
 		return []m.Stmt{&m.Return{Val: g.Conv(f.Ret, 2)}}
 	})
